@@ -106,7 +106,7 @@ func genCtlCase(t *rapid.T) CtlCase {
 		}
 	}
 	c.EOFWith = rapid.Bool().Draw(t, "eof_with_last_bytes")
-	c.Handlers = rapid.SampledFrom([]string{"default", "default", "custom", "fail"}).Draw(t, "handlers")
+	c.Handlers = rapid.SampledFrom([]string{"default", "default", "custom", "fail", "reset"}).Draw(t, "handlers")
 	c.FailAt = rapid.IntRange(0, 6).Draw(t, "fail_at")
 	c.LocalClose = rapid.IntRange(0, 4).Draw(t, "local_close") == 0
 	c.TightLimit = rapid.IntRange(0, 3).Draw(t, "tight_limit") == 0
@@ -149,6 +149,13 @@ func checkC08(c CtlCase, o *Obs) error {
 		h.failAt = c.FailAt
 	}
 	h.install(conn)
+	if c.Handlers == "reset" {
+		// the application had handlers of its own for a while and now restores
+		// the defaults the documented way: Set...Handler(nil)
+		conn.SetPingHandler(nil)
+		conn.SetPongHandler(nil)
+		conn.SetCloseHandler(nil)
+	}
 	if c.StaleWriteDeadline {
 		conn.SetWriteDeadline(time.Now().Add(-time.Hour))
 		o.Class("stale_write_deadline")
@@ -234,6 +241,10 @@ func checkC08(c CtlCase, o *Obs) error {
 	expectEvents := len(wants)
 	if failing {
 		expectEvents = c.FailAt + 1
+	}
+	expectReplies := expectEvents
+	if c.Handlers == "reset" {
+		expectEvents = 0 // the logging handlers were replaced by the defaults
 	}
 	if len(h.Events) != expectEvents {
 		return fmt.Errorf("%d control frames should have reached a handler, %d did (handler mode %s, failing=%v)", expectEvents, len(h.Events), c.Handlers, failing)
@@ -353,7 +364,7 @@ func checkC08(c CtlCase, o *Obs) error {
 	}
 	var pongs [][]byte
 	closeCode := -1
-	for i := 0; i < expectEvents; i++ {
+	for i := 0; i < expectReplies; i++ {
 		if failing && i == c.FailAt {
 			break // the failing handler did not reply
 		}
